@@ -22,10 +22,14 @@ MIXIN_YAML = {"apis": [{"name": "google.longrunning.Operations"}, {"name": "goog
                                  {"selector": "google.longrunning.Operations.ListOperations", "get": "/v1/{name=operations}"},
                                  {"selector": "google.longrunning.Operations.CancelOperation", "post": "/v1/{name=operations/*}:cancel", "body": "*"},
                                  {"selector": "google.longrunning.Operations.DeleteOperation", "delete": "/v1/{name=operations/*}"},
-                                 {"selector": "google.cloud.location.Locations.GetLocation", "get": "/v1/{name=projects/*/locations/*}"},
+                                 {"selector": "google.cloud.location.Locations.GetLocation", "get": "/v1/{name=projects/*/locations/*}",
+                                  "additional_bindings": [{"get": "/v1/{name=organizations/*/locations/*}"}]},
                                  {"selector": "google.cloud.location.Locations.ListLocations", "get": "/v1/{name=projects/*}/locations"},
-                                 {"selector": "google.iam.v1.IAMPolicy.GetIamPolicy", "post": "/v1/{resource=projects/*}:getIamPolicy", "body": "*"},
-                                 {"selector": "google.iam.v1.IAMPolicy.SetIamPolicy", "post": "/v1/{resource=projects/*}:setIamPolicy", "body": "*"},
+                                 # primary binding without a body, additional binding with one — and the other way round for SetIamPolicy
+                                 {"selector": "google.iam.v1.IAMPolicy.GetIamPolicy", "get": "/v1/{resource=projects/*}:getIamPolicy",
+                                  "additional_bindings": [{"post": "/v1/{resource=projects/*/things/*}:getIamPolicy", "body": "*"}]},
+                                 {"selector": "google.iam.v1.IAMPolicy.SetIamPolicy", "post": "/v1/{resource=projects/*}:setIamPolicy", "body": "*",
+                                  "additional_bindings": [{"get": "/v1/{resource=projects/*/things/*}:setIamPolicy"}]},
                                  {"selector": "google.iam.v1.IAMPolicy.TestIamPermissions", "post": "/v1/{resource=projects/*}:testIamPermissions", "body": "*"}]}}
 
 
